@@ -238,14 +238,12 @@ Section Quiet.
   Qed.
 
   (** *** the storage-side loops: a write counter that did not move means an unchanged database *)
-  Lemma bulk_loop_err : forall rows d t k seen d' s c m,
-    bulk_loop d t rows k seen = (d', Err s c m) -> k <= m /\ (m = k -> d' = d).
+  (** the bulk-transfer path validates every row before it inserts the first one: a failure changes nothing *)
+  Lemma bulk_transfer_err : forall d t tb rows d' s c m,
+    bulk_transfer d t tb rows = (d', Err s c m) -> d' = d /\ m = 0.
   Proof.
-    induction rows as [|r rest IH]; intros d t k seen d' s c m H; cbn [bulk_loop] in H; [discriminate|].
-    destruct (get_table d t) as [tb|]; [|inversion H; subst; auto].
-    destruct (bulk_row_ok d tb seen r).
-    - apply IH in H. destruct H as [Hle Heq]. split; [lia|]. intro Hm. lia.
-    - inversion H; subst; auto.
+    intros d t tb rows d' s c m H. unfold bulk_transfer in H.
+    destruct (bulk_validate d tb rows 0 []); inversion H; subst; auto.
   Qed.
 
   Lemma upd_refs_m0 : forall d t pkc old new d' ok, upd_refs d t pkc old new = (d', ok, 0) -> d' = d.
@@ -320,9 +318,9 @@ Section Quiet.
     intros b ctx d t src star d' log s c H Hwf Hq. unfold do_insert_select in H.
     destruct (get_table d t) as [dst|]; [|inversion H; reflexivity].
     destruct (get_table d src) as [sr|]; [|inversion H; reflexivity].
-    destruct (star && bulk_eligible dst sr).
-    - destruct (bulk_loop d t (tb_rows sr) 0 []) as [dd oo] eqn:Eb. inversion H; subst.
-      apply bulk_loop_err in Eb. destruct Eb as [_ Heq]. rewrite (Heq eq_refl). reflexivity.
+    destruct (star && is_none (hd_error (triggers_for_table (d_trigs d) t EvInsert)) && bulk_eligible dst sr).
+    - destruct (bulk_transfer d t dst (tb_rows sr)) as [dd oo] eqn:Eb. inversion H; subst.
+      apply bulk_transfer_err in Eb. destruct Eb as [Heq _]. rewrite Heq. reflexivity.
     - destruct (Nat.eqb _ _); [|inversion H; reflexivity]. eapply insert_rows_quiet_failure; eauto.
   Qed.
 
@@ -335,7 +333,7 @@ Section Quiet.
     wf d -> log_quiet log = true -> observe d' = observe d.
   Proof.
     intros b ctx d t asg w d' log s c H Hwf Hq. unfold do_update in H. unfold fireS, fireRs in H.
-    destruct (if is_none ctx then fire_stmt db run_body b (d_trigs d) t Before (EvUpdate None) d else (d, [], None)) as [[d1 l1] r1] eqn:E1.
+    destruct (if is_none ctx then fire_stmt db run_body b (d_trigs d) t Before (EvUpdate (Some (map fst asg))) d else (d, [], None)) as [[d1 l1] r1] eqn:E1.
     destruct r1 as [c1|].
     { inversion H; subst. eapply opt_stmt_quiet; eauto. }
     assert (Hd1 : log_quiet l1 = true -> d1 = d).
@@ -351,7 +349,7 @@ Section Quiet.
       destruct (existsb _ asg); [|inversion E2; reflexivity].
       apply cascade_updates_m in E2. destruct E2 as [_ Heq]. apply Heq. exact Hm. }
     destruct r2 as [k2|]; [inversion H; subst; rewrite (Hm2 eq_refl), (Hd1 Hq); reflexivity|].
-    destruct (fire_rows db run_body b (d_trigs d) t Before (EvUpdate None) (images ups) 0 d2) as [[d3 l3] r3] eqn:E3.
+    destruct (fire_rows db run_body b (d_trigs d) t Before (EvUpdate (Some (map fst asg))) (images ups) 0 d2) as [[d3 l3] r3] eqn:E3.
     destruct r3 as [[k3 c3]|].
     { inversion H; subst. splitq Hq. rewrite (Hm2 eq_refl), (Hd1 Hq0) in E3. eapply fire_rows_quiet; eauto. }
     destruct (apply_updates t ups 0 d3) as [[d4 r4] m4] eqn:E4.
@@ -360,13 +358,13 @@ Section Quiet.
     { inversion H; subst. assert (m2 = 0) by lia. assert (m4 = 0) by lia. subst m2 m4. splitq Hq.
       rewrite (Hm2 eq_refl), (Hd1 Hq0) in E3.
       destruct (fire_rows_quiet _ _ _ _ _ _ _ _ _ _ _ E3 Hwf Hq) as [He3 _]. rewrite (Heq4 eq_refl), (He3 eq_refl). reflexivity. }
-    destruct (fire_rows db run_body b (d_trigs d) t After (EvUpdate None) (images ups) 0 d4) as [[d5 l5] r5] eqn:E5.
+    destruct (fire_rows db run_body b (d_trigs d) t After (EvUpdate (Some (map fst asg))) (images ups) 0 d4) as [[d5 l5] r5] eqn:E5.
     assert (Hups : m2 + m4 = 0 -> ups = [] /\ d4 = d3 /\ d2 = d1).
     { intro Hz. assert (m2 = 0) by lia. assert (m4 = 0) by lia. subst m2 m4. specialize (Hn4 eq_refl). cbn in Hn4.
       symmetry in Hn4. apply length_zero_iff_nil in Hn4. repeat split; auto. }
     destruct r5 as [[k5 c5]|].
     { assert (Hz : m2 + m4 = 0) by congruence. destruct (Hups Hz) as (Hu & _ & _). subst ups. cbn [images map fire_rows] in E5. discriminate. }
-    destruct (if is_none ctx then fire_stmt db run_body b (d_trigs d) t After (EvUpdate None) d5 else (d5, [], None)) as [[d6 l6] r6] eqn:E6.
+    destruct (if is_none ctx then fire_stmt db run_body b (d_trigs d) t After (EvUpdate (Some (map fst asg))) d5 else (d5, [], None)) as [[d6 l6] r6] eqn:E6.
     destruct r6 as [c6|]; [|discriminate].
     assert (Hz : m2 + m4 = 0) by congruence.
     inversion H; subst. destruct (Hups Hz) as (Hu & H43 & H2). subst ups d4 d2.
@@ -619,10 +617,11 @@ Example fk_no_action_after_cascade :
   W.bad (mkDb [W.t0; W.c2; W.c3] []) W.upd_pk /\ W.bad (mkDb [W.t0; W.c2; W.c3] []) W.del_all.
 Proof. split; witness. Qed.
 
-(** the bulk-transfer path of INSERT ... SELECT *: source row 1 duplicates a key, source row 0 stays *)
-Example bulk_transfer_keeps_earlier_rows :
-  W.bad (mkDb [W.t0; W.src] []) (SInsertSel 0 4 true).
-Proof. witness. Qed.
+(** the bulk-transfer path of INSERT ... SELECT *: source row 1 duplicates a key -- the statement fails at that row and
+    source row 0 is NOT kept (every row is validated before the first insert) *)
+Example bulk_transfer_failure_changes_nothing :
+  step (mkDb [W.t0; W.src] []) (SInsertSel 0 4 true) = (mkDb [W.t0; W.src] [], [], Err (AtBulk 1) CzCheck 0).
+Proof. vm_compute. reflexivity. Qed.
 
 (** UPDATE whose SET expression yields a string for row 1: the storage layer rejects it after row 0 was written *)
 Example update_type_mismatch_keeps_earlier_rows :
@@ -712,11 +711,24 @@ Proof.
   split; [repeat constructor; cbn; intuition discriminate|known_witness].
 Qed.
 
-Theorem known_bulk_transfer_partial :
-  exists d st, wf d /\ changed_after_error d st (AtBulk 1) 1.
+(** INSERT ... SELECT * through the bulk-transfer path is atomic outright: a failure at any source row leaves the
+    database exactly as it was, a success appends every source row in storage order *)
+Theorem exec_bulk_transfer_atomic : forall fuel ctx d t src dst s d' log o,
+  exec fuel ctx d (SInsertSel t src true) = (d', log, o) ->
+  get_table d t = Some dst -> get_table d src = Some s ->
+  is_none (hd_error (triggers_for_table (d_trigs d) t EvInsert)) && bulk_eligible dst s = true ->
+  log = [] /\
+  match o with
+  | Err _ _ m => d' = d /\ m = 0
+  | Ok n => n = length (tb_rows s) /\ d' = fold_left (fun d0 r => push_row d0 t r) (tb_rows s) d
+  end.
 Proof.
-  exists (mkDb [W.t0; W.src] []), (SInsertSel 0 4 true).
-  split; [repeat constructor; cbn; intuition discriminate|known_witness].
+  intros fuel ctx d t src dst s d' log o H Ht Hs He.
+  assert (Hd : do_insert_select (match fuel with O => fun _ _ _ d0 => (d0, None) | S f => body_runner f end)
+                                (match fuel with O => false | S _ => true end) ctx d t src true = (d', log, o)).
+  { destruct fuel; exact H. }
+  unfold do_insert_select in Hd. rewrite Ht, Hs in Hd. cbn [andb] in Hd. rewrite He in Hd.
+  unfold bulk_transfer in Hd. destruct (bulk_validate d dst (tb_rows s) 0 []); inversion Hd; subst; auto.
 Qed.
 
 Theorem known_update_type_mismatch_partial :
